@@ -29,11 +29,11 @@ def rewrite_configs(scs, limit=120):
         r = sc['req']
         if r['proto'] != 'h1' or r['kind'] != 'normal' or r['custom'] != 'absent':
             continue
-        groups.setdefault((r['probe'], r['preserveHost']), []).append(sc)
+        groups.setdefault((r['probe'], r['preserveHost'], r.get('prefix', '')), []).append(sc)
     cfgs, index = [], []
-    for (probe, ph), lst in sorted(groups.items()):
+    for (probe, ph, prefix), lst in sorted(groups.items()):
         lst = lst[:limit]
-        cfgs.append({'args': ['-enable-kubernetes-probe=%s' % str(probe).lower(), '-preserve-host=%s' % str(ph).lower()],
+        cfgs.append({'args': ['-enable-kubernetes-probe=%s' % str(probe).lower(), '-preserve-host=%s' % str(ph).lower()], 'forward_path': prefix,
                      'requests': [{'id': sc['id'], 'method': sc['req']['method'], 'path': sc['req']['path'], 'host': sc['req']['host'], 'ua': sc['req']['ua'],
                                    'probeText': sc['req']['probeText'], 'lines': sc['req']['lines']} for sc in lst]})
         index.append(lst)
